@@ -21,10 +21,10 @@ def generate(seed, tier):
     rng = stream(seed, "c01")
     big = tier == "thorough" and rng.random() < 0.15
     spec = gen_instance(rng, huge=0.03, sparse_ids=0.03, large=0.008, max_jobs=6 if big else 4, max_machines=5 if big else 4, max_ops=6 if big else 4)
-    names, style = gen_filter(rng, None)
+    names, style = gen_filter(rng, None, user=0.15)
     faulty = rng.random() < 0.6
     ops = gen_dispatch_ops(
-        rng, n_ops(spec),
+        rng, n_ops(spec), p_fork=0.03 if rng.random() < 0.3 else 0.0,
         p_query=0.12 if faulty else 0.05,
         p_invalid=0.15 if faulty else 0.0,
         p_reset=0.04 if faulty else 0.0,
